@@ -9,6 +9,7 @@ pub mod c11;
 pub mod c12;
 pub mod c14;
 pub mod c15;
+pub mod c16;
 pub mod c20;
 pub mod histprops;
 
